@@ -242,7 +242,40 @@ def run(F, scopes, rule_id="R24"):
                    "%s: %d sites absorb the error of `%s(..)` by %s, %d were reviewed" % (root, len(ss), producer, kind, row[1].get("count", 1)))
         else:
             r.inst(iid, ss[0]["span"], "ok", sites=len(ss), reviewed=row[1]["why"])
-    r.inst("absorb|census", "-", "ok", results_examined=n_results, absorbing_sites_in_scope=n_scope, nontrivial=n_results > 0)
+    # two-sided: a reviewed recovery (alternative start value, retry) must not silently disappear or be narrowed
+    roots = {b.path.split("::{closure")[0] for b in F.bodies}
+    for t in table:
+        fns = [x for x in roots if x.endswith(t["fn"]) and any(sc in x for sc in scopes)]
+        if not fns or not t.get("recovery"):
+            continue
+        have = sum(len(groups.get((fn, t["producer"], t["kind"]), [])) for fn in fns)
+        if have < t.get("count", 1):
+            fn = sorted(fns, key=len)[0]
+            iid = "absorb|%s|%s|%s|removed" % (t["fn"], t["producer"], t["kind"])
+            r.inst(iid, "-", "violation")
+            r.fail(iid, "-",
+                   "%s: the reviewed recovery from a failed `%s(..)` (%s; %d site(s) reviewed, %d found) was removed or narrowed: inputs that "
+                   "were rescued by the alternative attempt now fail" % (fn, t["producer"], t["why"][:90], t.get("count", 1), have))
+    # (c) no recovery decision depends on the *kind* of solver error: on the reviewed tree nothing but the derived Display / Debug /
+    #     Error impls inspects the variant of an EosError.  A retry that is taken only for `NotConverged` silently stops rescuing
+    #     attempts that fail with IterationFailed / TrivialSolution.
+    n_kind = 0
+    for b in F.bodies:
+        if "::tests::" in b.path or not any(sc in b.path for sc in scopes):
+            continue
+        for bi, si, st in b.stmts():
+            rv = st["rv"]
+            if rv["k"] != "discr" or st.get("exp"):
+                continue
+            ty = b.pty(rv["place"])
+            if ty and (ty.get("s") or "").endswith("EosError"):
+                n_kind += 1
+                iid = "errkind|%s" % b.path.split("::{closure")[0]
+                r.inst(iid, st.get("span", b.file_line()), "violation")
+                r.fail(iid, st.get("span", b.file_line()),
+                       "%s branches on the variant of a solver error: a recovery (retry / alternative start value) that depends on the error kind no "
+                       "longer rescues attempts failing with a different kind — no other place in the library distinguishes error kinds" % b.path)
+    r.inst("absorb|census", "-", "ok", results_examined=n_results, absorbing_sites_in_scope=n_scope, error_kind_branches=n_kind, nontrivial=n_results > 0)
     r.floor("Result values carrying a solver error examined", n_results, 300)
     r.exhaustive = True
     r.blind.append("errors converted by hand-written code that never holds a Result (e.g. NaN sentinels) are not seen")
